@@ -465,20 +465,49 @@ print("RESULT " + json.dumps(out))
 '''
 
 
-def e2e_everything(chk: core.Check):
+E2E_WORKER = r'''
+import sys, multiprocessing as mp
+
+
+def work(root):
+    import runpy
+    sys.argv = [root + "/e2e_all.py", root]
+    runpy.run_path(root + "/e2e_all.py", run_name="__main__")
+
+
+if __name__ == "__main__":            # the parent never imports pybes3: the worker's import is the first one after the update
+    ctx = mp.get_context("spawn")
+    p = ctx.Process(target=work, args=(sys.argv[1],))
+    p.start(); p.join()
+    sys.exit(p.exitcode)
+'''
+
+
+def e2e_everything(chk: core.Check, variant="plain"):
     """every public geometry / parsing function, both tables replaced (positions shifted, one MDC wire dropped so that the derived
-    numbering changes): what a fresh interpreter returns after the update must equal what it returns with every cache file wiped"""
+    numbering changes): what a fresh interpreter returns after the update must equal what it returns with every cache file wiped.
+    variants: `plain`; `symlinked-tables` (the table files of the package are symbolic links into a central area - a site installation -
+    and the update replaces the files behind the links); `worker-process` (the first import after the update happens in a spawned
+    multiprocessing worker whose parent never imported pybes3)"""
     import time
     root = scratch_package()
     (root / "e2e_all.py").write_text(E2E_ALL)
+    (root / "e2e_worker.py").write_text(E2E_WORKER)
+    if variant == "symlinked-tables":
+        central = root / "central-geometry"
+        central.mkdir()
+        for nm in ("mdc_geom.npz", "emc_geom.npz"):
+            f = root / "pybes3" / "detectors" / "geometry" / nm
+            shutil.move(str(f), str(central / nm))
+            os.symlink(central / nm, f)
 
-    def run(msg=False, prefix=False):
+    def run(msg=False, prefix=False, worker=False):
         # the clean-up messages (PYBES3_NUMBA_CACHE_MSG=1) and a redirected bytecode cache (PYTHONPYCACHEPREFIX: numba keeps writing next to the
         # sources) must not change what is removed
         extra = {"PYBES3_NUMBA_CACHE_MSG": "1"} if msg else {}
         if prefix:
             extra["PYTHONPYCACHEPREFIX"] = str(root / "pyc-prefix")
-        p = subprocess.run([core.PY, str(root / "e2e_all.py"), str(root)], capture_output=True, text=True, env=dict(e2e_env(), **extra), timeout=1500)
+        p = subprocess.run([core.PY, str(root / ("e2e_worker.py" if worker else "e2e_all.py")), str(root)], capture_output=True, text=True, env=dict(e2e_env(), **extra), timeout=1500)
         lines = [l for l in p.stdout.splitlines() if l.startswith("RESULT ")]
         if p.returncode != 0 or not lines:
             raise core.Infra("e2e_all process failed: " + p.stderr[-1200:])
@@ -497,17 +526,18 @@ def e2e_everything(chk: core.Check):
         e["center_x"] = e["center_x"] + 2.0
         e["points_y"] = e["points_y"] - 1.5
         np.savez(g / "emc_geom.npz", **e)
-        after = run(msg=(chk.seed % 2 == 1), prefix=True)           # P2: next import after the update
+        after = run(msg=(chk.seed % 2 == 1), prefix=(variant == "plain"), worker=(variant == "worker-process"))           # P2: next import after the update
         survivors = sorted(str(f.relative_to(root / "pybes3")) for f in (root / "pybes3").rglob("*.nb[ci]") if f.stat().st_mtime < (g / "mdc_geom.npz").stat().st_mtime)
         for f in list((root / "pybes3").rglob("*.nb[ci]")):
             f.unlink()
         ref = run()                                              # P3: nothing cached - values of the current tables
-        chk.count(len(ref), key="e2e-everything")
+        chk.count(len(ref), key=f"e2e-everything-{variant}")
+        chk.hist("e2e_everything_variant", variant)
         bad = [k for k in ref if after.get(k) != ref[k]]
-        chk.coverage["e2e_everything"] = {"functions_compared": len(ref), "caches_older_than_the_tables_surviving": survivors[:6]}
+        chk.coverage["e2e_everything" + ("" if variant == "plain" else "_" + variant)] = {"functions_compared": len(ref), "caches_older_than_the_tables_surviving": survivors[:6]}
         if bad:
             k = bad[0]
-            chk.failing_input("public lookups in a fresh interpreter after both geometry tables were replaced", {"history": ["P1: import, call every public geometry / parsing function (caches written)", "mdc_geom.npz: last wire of layer 0 dropped, west_x += 3; emc_geom.npz: center_x += 2, points_y -= 1.5", "P2: import (import-time check), same calls"],
+            chk.failing_input("public lookups in a fresh interpreter after both geometry tables were replaced" + ("" if variant == "plain" else f" ({variant})"), {"variant": variant, "history": ["P1: import, call every public geometry / parsing function (caches written)", "mdc_geom.npz: last wire of layer 0 dropped, west_x += 3; emc_geom.npz: center_x += 2, points_y -= 1.5", "P2: import (import-time check), same calls"],
                                                                                                                  "function": k, "differing_functions": bad[:8], "cache_files_older_than_the_tables_left_on_disk": survivors[:8]},
                               after.get(k), ref[k], "after the geometry table files change, the next import discards every cache produced from older tables, so that lookups return values of the current tables")
     finally:
@@ -593,6 +623,9 @@ def main(chk: core.Check) -> int:
     wiring(chk)
     e2e_known_finding(chk)
     e2e_everything(chk)
+    for variant in ("symlinked-tables", "worker-process"):
+        if not [f for f in chk.failing if not f.get("finding_key")]:
+            e2e_everything(chk, variant)
     if thorough:
         e2e_normal(chk)
         e2e_wholesale(chk)
